@@ -41,7 +41,7 @@ def concrete_run(exe, case, valfile, tol=None, timeout=120):
 
 def run_phase(chk, name, harness, cases, id_prefixes, prec="d", vendor=False, idx64=False, asan=False, budget_s=240, qtimeout_ms=10000,
               defs=(), bounds="", env=None, key_extra=None, extra_src=(), crash_is_violation=False, event_violations=(), validate_samples=4, tol=None, note_check=None,
-              monitor_ids=(), path_timeout=None, crash_filter=None):
+              monitor_ids=(), path_timeout=None, crash_filter=None, div0_functions=None):
     """id_prefixes: assertion-id prefixes that belong to the property being checked.
     monitor_ids: path-record counters ('global_stores', 'ws_viol', 'heap_errors') that are violations when non-zero."""
     t0 = time.time()
@@ -104,6 +104,29 @@ def run_phase(chk, name, harness, cases, id_prefixes, prec="d", vendor=False, id
     for case, path, msg in pathlog[:50]:
         key = {"engine": "E2", "harness": os.path.basename(harness), "prec": prec, "assert_id": msg.split("=")[0], "case": " ".join(map(str, case))}
         chk.violation(key, "%s on case [%s] path %s" % (msg, key["case"], path), {"harness": harness, "prec": prec, "defs": list(defs), "case": list(case), "path": path})
+
+    # ---- divisions whose divisor can be exactly zero on a feasible path (solver model), inside the named library functions: replayed concretely (the instrumented
+    #      binary in concrete mode reports a division of a finite value by an exact zero together with the block it happens in)
+    if div0_functions:
+        import re as _re
+        fn_of = {r_["id"]: r_["function"] for r_ in table.get("reach", [])}; seen_d = set(); nrep_d = 0
+        for d_ in sorted(ex.divs, key=lambda x: 0 if x.get("model") else 1):
+            fn = fn_of.get(d_.get("block"), "?")
+            if not _re.match(div0_functions, fn): continue
+            kd = (fn, tuple(d_["case"]))
+            if kd in seen_d: continue
+            seen_d.add(kd); obligations += 1
+            model = d_.get("model") or {}; how = "not replayed"; rep = None
+            if nrep_d < 8:
+                nrep_d += 1; vf = _values_file(chk, model); rc, err, recs = concrete_run(exe, d_["case"], vf, tol)
+                rep = any(r_.get("k") == "E" and str(r_.get("ev", "")).startswith("div-by-zero") and fn_of.get(r_.get("block")) == fn for r_ in recs)
+                how = "instrumented-concrete:%s" % ("reproduced" if rep else "not reproduced (rc=%d)" % rc)
+            what = "division by a value that is exactly zero in %s on case [%s] path %s; model %s; replay %s" % (fn, " ".join(map(str, d_["case"])), d_.get("path"), json.dumps({k_: v_[0] for k_, v_ in model.items()})[:300], how)
+            if rep is False: chk.inconclusive.append("MODEL-ONLY (did not reproduce in concrete replay): " + what); print("MODEL-ONLY " + what)
+            else:
+                key = {"engine": "E2", "harness": os.path.basename(harness), "prec": prec, "assert_id": "div-by-zero:" + fn, "case": " ".join(map(str, d_["case"]))}
+                if key_extra: key.update(key_extra(d_["case"]))
+                chk.violation(key, what, {"harness": harness, "prec": prec, "vendor": vendor, "idx64": idx64, "defs": list(defs), "case": d_["case"], "path": d_.get("path"), "values": {k_: v_[1] for k_, v_ in model.items()}})
 
     # ---- inconclusive obligations: second solver
     myunk = [u for u in ex.unks if mine(u.get("id", ""))]
